@@ -7,7 +7,7 @@ from ..interp import Interp
 from ..lib import is_call, loc
 from ..stmts import _ConcreteIter
 from ..terms import App, Atom, ModelFn, Obj, Sym, Term, vkey
-from .common import dsid, r_last_output_order
+from .common import dsid, r_last_output_order, worker
 
 INTO = "cascade.low.into"
 RUN = "cascade.executor.runner.runner.run"
@@ -252,3 +252,114 @@ def r7_memory_flush(ctx):
 
 
 RULES.append(r7_memory_flush)
+
+
+def r8_placeholders(ctx):
+    """C10.R8 (producer side of the positional binding): a fluent Node records one placeholder per input in its payload's positional
+    arguments — `input_name(i)` for the i-th input, appended in order unless the caller already placed it — and wires its inputs under
+    exactly those names; node2task's reverse lookup finds the position of an upstream value by that name."""
+    from ..terms import Atom
+    repo = ctx.repo
+    F = "earthkit.workflows.fluent"
+    ni = repo.func(f"{F}.Node.__init__")
+    ctx.analysed(ni.qual)
+    G = "earthkit.workflows.graph.nodes"
+    A, B = Obj(G + ".Node", {"name": "pa"}, name="IN-A"), Obj(G + ".Node", {"name": "pb"}, name="IN-B")
+    for given, want in ((["lit"], ["lit", "input0", "input1"]), (["input1", "lit"], ["input1", "lit", "input0"]), ([], ["input0", "input1"])):
+        pay = Obj(F + ".Payload", {"args": list(given), "kwargs": {"k": 1}, "func": Atom("f")}, name="USERPAY")
+        ip = Interp(repo, max_iter=3, inline={f"{F}.Payload.copy", f"{F}.Payload.__init__", f"{F}.Payload.to_tuple", f"{F}.Node.input_name"},
+                    type_facts={"IN-A": {G + ".Node"}, "IN-B": {G + ".Node"}})
+        paths = [p for p in ip.explore(ni, args={"payload": pay, "inputs": [A, B], "num_outputs": 1, "name": None}) if p.exit[0] == "return"]
+        ctx.evals(len(paths))
+        if not paths:
+            ctx.undecided("C10.R8", loc(ni), f"Node.__init__ on a model payload with args {given} does not complete")
+            continue
+        for p in paths:
+            sup = [e for e in p.effects if e.kind == "call" and (e.data.get("name") or "").endswith("__init__") and "payload" in e.data["kwargs"]]
+            if len(sup) != 1:
+                ctx.undecided("C10.R8", loc(ni), f"cannot find the base-class construction of the node ({len(sup)} candidates)")
+                break
+            pl = sup[0].data["kwargs"]["payload"]
+            args_ = pl[1] if isinstance(pl, tuple) and len(pl) == 3 else None
+            wired = {k: getattr(v, "name", vkey(v)) for k, v in sup[0].data["kwargs"].items() if k not in ("payload", "outputs")}
+            if args_ != want or wired != {"input0": "IN-A", "input1": "IN-B"}:
+                ctx.violation("C10.R8", ni.qual, loc(ni), "one placeholder per input, named like the input",
+                              f"Node(payload with args {given}, inputs=[a, b]) stores positional arguments {vkey(args_)} and wires its inputs as {wired}; expected arguments "
+                              f"{want} and inputs {{'input0': a, 'input1': b}} — lowering looks up the position of each upstream value by that name")
+                break
+        else:
+            ctx.ok("C10.R8", loc(ni), f"placeholders | payload args {given} -> {want}, inputs wired under the same names")
+
+
+RULES.append(r8_placeholders)
+
+
+def r9_memory_lifecycle(ctx):
+    """C10.R9 / C09 (reader side): histories on the worker's Memory — a value handled locally is provided from the local store without
+    touching shared memory; a fetched input is read once (second provide served from the cache) and its buffer is *held*; pop() and
+    __exit__ close every held buffer exactly once (the store's reader accounting depends on that close)."""
+    repo = ctx.repo
+    M = "cascade.executor.runner.memory.Memory"
+    D = dsid("TA")
+    BUF = Obj("cascade.shm.client.AllocatedBuffer", {"deser_fun": "df"}, name="BUF")
+    shm_calls = lambda p: [e for e in p.effects if e.kind == "call" and (e.data.get("qual") or e.data.get("name") or "").startswith("cascade.shm.client.")]
+    closes = lambda p: [e for e in p.effects if e.kind == "call" and e.data.get("method") == "close" and getattr(e.data.get("recv_value"), "name", "") == "BUF"]
+    models = {"cascade.shm.client.get": lambda run, a, k, n, f: BUF, "cascade.executor.serde.des_output": lambda run, a, k, n, f: Atom("VALUE")}
+    for q in ("handle", "provide", "pop", "__exit__"):
+        ctx.analysed(f"{M}.{q}")
+    L = loc(repo.func(f"{M}.provide"))
+    # 1. local value
+    ps = Interp(repo, call_models=models).explore(repo.func(f"{M}.handle"), env={"self.local": {}, "self.bufs": {}, "self.worker": worker("H1")},
+                                                   args={"outputId": D, "outputSchema": "Any", "outputValue": Atom("V"), "isPublish": False})
+    ctx.evals(len(ps))
+    if len(ps) != 1 or ps[0].exit[0] != "return":
+        ctx.undecided("C10.R9", L, f"Memory.handle (unpublished output): {[(p.exit[0], vkey(p.exit[1])[:50]) for p in ps]}")
+    else:
+        heap = {k: v for k, v in ps[0].heap.items() if k.startswith("self.")}
+        ps2 = Interp(repo, call_models=models).explore(repo.func(f"{M}.provide"), env=heap, args={"inputId": D, "annotation": "Any"})
+        ctx.evals(len(ps2))
+        if len(ps2) != 1 or ps2[0].exit != ("return", Atom("V")) and getattr(ps2[0].exit[1], "name", None) != "V" or shm_calls(ps2[0]):
+            ctx.violation("C10.R9", f"{M}.handle", loc(repo.func(f"{M}.handle")), "a locally produced value is provided locally",
+                          f"handle(D, value V, isPublish=False) then provide(D): {[(p.exit[0], vkey(p.exit[1])[:50]) for p in ps2]} with "
+                          f"{[e.data.get('name') for p in ps2 for e in shm_calls(p)]} shared-memory calls; expected V straight from the local store "
+                          f"(an unpublished intermediate of a fused sequence exists nowhere else)")
+        else:
+            ctx.ok("C10.R9", L, "handle(unpublished) -> provide returns the value from the local store, no shm access")
+    # 2. fetched input: read once, cached, buffer held
+    ps = Interp(repo, call_models=models).explore(repo.func(f"{M}.provide"), env={"self.local": {}, "self.bufs": {}}, args={"inputId": D, "annotation": "Any"})
+    ctx.evals(len(ps))
+    if len(ps) != 1 or ps[0].exit[0] != "return":
+        ctx.undecided("C10.R9", L, f"Memory.provide (first read): {[(p.exit[0], vkey(p.exit[1])[:50]) for p in ps]}")
+        return
+    p1 = ps[0]
+    heap = {k: v for k, v in p1.heap.items() if k.startswith("self.")}
+    held = [v for v in (heap.get("self.bufs") or {}).values() if getattr(v, "name", "") == "BUF"] if isinstance(heap.get("self.bufs"), dict) else []
+    ps2 = Interp(repo, call_models=models).explore(repo.func(f"{M}.provide"), env=heap, args={"inputId": D, "annotation": "Any"})
+    ctx.evals(len(ps2))
+    if getattr(p1.exit[1], "name", None) != "VALUE" or len(ps2) != 1 or getattr(ps2[0].exit[1], "name", None) != "VALUE" or shm_calls(ps2[0]) or closes(p1):
+        ctx.violation("C10.R9", f"{M}.provide", L, "fetched input read once and cached",
+                      f"provide(D) twice: first -> {vkey(p1.exit[1])[:40]} (closes {len(closes(p1))}), second -> {[(p.exit[0], vkey(p.exit[1])[:40]) for p in ps2]} with "
+                      f"{sum(len(shm_calls(p)) for p in ps2)} shm call(s); expected the decoded value both times, one get, buffer still open")
+    elif len(held) != 1:
+        ctx.violation("C10.R9", f"{M}.provide", L, "reader buffer held for the later close",
+                      f"after provide(D) the buffer returned by shm get is not remembered (bufs = {vkey(heap.get('self.bufs'))[:80]}): nobody will ever close it, the store "
+                      f"keeps counting a reader and can neither evict nor purge the dataset")
+    else:
+        ctx.ok("C10.R9", L, "provide: one shm get, decoded value cached, buffer held")
+        for q, args in (("pop", {"ds": D}), ("__exit__", {"exc_type": None, "exc_val": None, "exc_tb": None})):
+            fi = repo.func(f"{M}.{q}")
+            ps3 = Interp(repo, call_models=models).explore(fi, env=heap, args=args)
+            ctx.evals(len(ps3))
+            for p in ps3:
+                if p.exit[0] != "return" or len(closes(p)) != 1:
+                    ctx.violation("C10.R9", fi.qual, loc(fi), f"{q} closes the held buffer once", f"provide(D) then {q}: ends {p.exit[0]}, the reader's buffer is closed "
+                                  f"{len(closes(p))} time(s); the store releases the dataset only on that close")
+                    break
+                if q == "pop" and (D in (p.heap.get("self.local") or {}) or D in (p.heap.get("self.bufs") or {})):
+                    ctx.violation("C10.R9", fi.qual, loc(fi), "pop forgets the dataset", f"after pop(D): local={vkey(p.heap.get('self.local'))[:60]} bufs={vkey(p.heap.get('self.bufs'))[:60]}")
+                    break
+            else:
+                ctx.ok("C10.R9", loc(fi), f"provide -> {q}: buffer closed exactly once")
+
+
+RULES.append(r9_memory_lifecycle)
